@@ -209,6 +209,16 @@ CLAIMED = {
         technique='contracts on the real methods (with-protocol, loop invariant, string terms), pyvc -> z3',
         design_ref='7/C23',
     ),
+    'C20': dict(
+        text='Ghost count HELD of semaphore units held by one coroutine. run_with_sema / run_with_sema_return_exceptions: the partial function is called holding exactly one unit, nothing held afterwards, value / exception passed on unchanged, the return-exceptions variant turns EVERY exception (BaseException) into (None, exc) and never raises. '
+        'Gather bodies: one task per partial function in submission order, handed to gather in that order, results returned in that order, awaited without the caller\'s unit, unit restored; with cancel_on_error every task is finished or cancelled (loop invariant) and all are awaited before the first exception leaves. '
+        'WithoutSemaphore gives up exactly one unit and must take it back on every exit (the exceptional exit fails: known finding). bounded_gather2 dispatch; bounded_gather holds one unit of the semaphore it passes. '
+        'OnlineBoundedGather2: run_and_cleanup runs the job holding one unit, never raises, cancellation is not a failure, only the FIRST failure is stored and shuts the pool down, the job always deregisters and the last one signals done; _shutdown cancels every unfinished job (loop invariant); call() refuses after shutdown.',
+        note=COMMON_NOTE + 'Assumed: asyncio single-threaded switching at awaits, contracts of Semaphore / gather / wait / create_task / shield, caller holds one unit (discharged for bounded_gather only). Call sites of WithoutSemaphore are checked against its contract, the real __aexit__ against the same contract (one known finding, replayed natively). '
+        'Two fix: commits (cancel_on_error cleanup, bounded_gather off-by-one). Not decided: termination of the pool exit loop (a job cancelled before its first step makes it wait forever - observation), fairness.',
+        technique='function / loop-invariant contracts with a ghost permit counter on the real coroutines (forked outcomes of awaited callees), pyvc -> z3; native asyncio scenarios as replay',
+        design_ref='7/C20',
+    ),
     'C22': dict(
         text='SourceCopier._copy_file_multi_part_main: a file is copied whole once or in ceil(size/part_size) announced parts, and for EVERY part index i the part starts at i*part_size and ends at min((i+1)*part_size, size), non-empty (tiling of [0,size), nonlinear VCs by z3). '
         '_copy_part (loop invariant): destination part stream created at part_number*part_size, every chunk read at exactly the destination position and written unchanged, exactly this_part_size bytes unless an error is reported; _copy_file (loop invariant): returns only at end of file with every byte written in order. '
